@@ -20,15 +20,15 @@ RULE = ("histories over four documents with the tracking allocator (every block 
         "same histories under ASan/LSan with SimpleAllocator.  distinct = distinct history; non-trivial = >= 10 ops")
 EXPLANATION = ("The ledger of the tracking allocator reports foreign frees, double frees, writes after free (poison check) and blocks still live "
                "after every owner was destroyed; independence of copies is checked by the C12 mirror (mutating or destroying one side never "
-               "changes the other). Theorems about the ownership ledger model are listed in the evidence when proved. Known finding F13: a "
-               "repeated ParseSchema does not free the previous schema buffer.")
+               "changes the other). Theorems about the ownership ledger model are listed in the evidence when proved. Finding F13 (a repeated ParseSchema never freed the previous schema "
+               "buffer) was repaired (4babc12): the buffers are chained and released with the document.")
 ASSUMPTIONS = ["std::multimap node allocations go through MapAllocator (seen by the ledger)"]
 TRUSTED = ["harness TrackingAllocator ledger, ASan/LSan"]
 LEVEL_TEXT = ("Machine-checked (Lean 4) ownership-ledger model on top of the DOM model (every owning payload carries a block id; C13_erase: it "
               "erases to the C12 model): for every op sequence no foreign/double free, reachable blocks = live blocks and pairwise distinct, "
               "parse-buffer views point to their own document's live buffer (C13_ledger), nothing live after dom-end (C13_balanced), deep copies "
               "own only fresh blocks (C13_copy_independent). Partial by nature (the real heap is outside the model) and ParseSchema is outside the "
-              "ledger model (F13 known): level 'other'; validated by the tracking-allocator ledger / LeakSanitizer on random histories.")
+              "ledger model: level 'other'; validated by the tracking-allocator ledger / LeakSanitizer on random histories.")
 LEVEL_NOTE = "Trusted: Lean kernel; harness ledger; sanitizers."
 TECHNIQUE = "Lean 4 ownership-ledger invariant + tracking-allocator differential runs"
 
@@ -50,7 +50,9 @@ def generate(rng, tier):
         e = rng.choice(docs)
         n = rng.choice([1, 1, 1, 2, 3])
         texts = [rng.choice(objs if rng.random() < 0.7 and objs else docs) for _ in range(n)]
-        cases.append({"lines": ["schema track " + G.hx(e) + " " + " ".join(G.hx(t) for t in texts)], "cls": f"schema/x{n}", "kind": "schema", "ntexts": n,
+        # track: ledger (leaks, double frees); simple: the real heap under ASan (a read of a released schema buffer through a string node)
+        alloc = "track" if rng.random() < 0.6 else "simple"
+        cases.append({"lines": [f"schema {alloc} " + G.hx(e) + " " + " ".join(G.hx(t) for t in texts)], "cls": f"schema/x{n}/{alloc}", "kind": "schema", "ntexts": n,
                       "nontrivial": True})
     # ParseSchema followed by a deep copy whose source is destroyed: strings updated in place, strings in rebuilt sub-trees, keys
     from gen import mergegen as MG
